@@ -50,6 +50,14 @@ CHECKS['C17'] = dict(level='model_checking', engine='lirsym/llvm', design='4/C17
    technique='symbolic execution of clang -O0 LLVM IR of array.c/map.c over region memory: one inductive step (arrays), bounded histories with symbolic keys (maps), z3',
    text='Dynamic arrays: ONE operation (append incl. realloc growth, get, set, len) from an arbitrary valid state (symbolic contents, every length 0..capacity) with symbolic index/element; the solver decides the list-abstraction step and refusal of out-of-range requests, and every memory access must stay inside a live region. Maps: new_i32/new_i64, a concrete prefix of 0 or 12 distinct inserts (so the next insert crosses the resize threshold), then 1-2 inserts with symbolic keys/values and get / size / full iteration with a symbolic query key, against an abstract map over the same terms; the hash of a symbolic key is an uninterpreted function that agrees with FNV-1a on the concrete keys (all collision patterns).',
    note='Trusted: clang front end, LLVM semantics in lirsym/llvm.py, libc summaries (malloc/calloc/realloc never fail), z3. Not covered: string/blob keys, from_pairs, free/destroy histories, capacities beyond 8, the optional out-layout.')
+CHECKS['C10'] = dict(level='model_checking', engine='gosym', design='4/C10',
+   technique='bounded symbolic execution of the Go range-check kernels (incl. strconv.ParseInt from source) on literals with symbolic digits, z3',
+   text='fitsInType / numeric.NewNumericValue / FitsInBitSize are executed symbolically on integer literal texts whose digits are symbolic (decimal, hex, octal, binary; separator; minus sign; leading zeros); for each of the eight types up to 64 bits the solver decides accepted <=> mathematical value in range, both directions, for every digit string of the listed lengths.',
+   note=_GO_NOTE + ' 128/256-bit types, the lexer pattern, literal positions and value materialisation in generated code are not decided here (the 128/256-bit text accumulation step is decided by C16).')
+CHECKS['C03'] = dict(level='other', engine='gosym', design='4/C03',
+   technique='symbolic execution of the type-compatibility decision kernel (go/ssa) over a pool of type pairs, SMT-backed path exploration',
+   text='PARTIAL: only the decision kernel. checkTypeCompatibility / isImplicitlyCompatible are executed from their SSA for every ordered pair of a pool of 36 types; for pairs in a forbidden rule class of the catalogue (numeric narrowing, float->int, also into/between optionals; T? where T is required; &T where &\'T is required; number/bool/str conversions) the verdict must not be implicit.',
+   note=_GO_NOTE + ' That checkNode/checkExpr reach every context, argument counts, name resolution, return checking and the errors-gate-codegen rule are NOT decided (traversals over pointer-rich ASTs have no symbolic content within this technique).')
 NA_DEFAULT = 'check not built yet (work in progress, see DESIGN.md section 11)'
 NA = {}
 
